@@ -98,9 +98,41 @@ def weak_constraints_large_cell(ctx):
                  replay={"prim_cell": prim_cell.tolist(), "prim_positions": prim_pos.tolist(), "numbers": [6, 8, 18], "supercell": list(dims), "cutoff": {"2": 2.0}, "order": 2}, has_input=True)
 
 
+def estimate_then_run(ctx, rng):
+    """The sum rule of a basis computed by an object that was first asked for its size estimate (a read-only query), with a cutoff, on
+    supercells with a lattice translation of order 3."""
+    from symfc.basis_sets import FCBasisSetO2, FCBasisSetO3
+    from reference import min_image_distances
+
+    for cname, diag in [("cscl", (3, 2, 1))] + ([] if ctx.quick else [("tri2_P1", (3, 1, 1)), ("hcp", (3, 1, 1))]):
+        sc = make_supercell(base_cells()[cname], diag, rng=rng, shuffle=True)
+        N = len(sc["numbers"])
+        at = atoms_of(sc)
+        dist = min_image_distances(np.asarray(sc["lattice"], float), np.asarray(sc["positions"], float))
+        shells = sorted(set(np.round(dist[dist > 1e-8], 6).tolist()))
+        if len(shells) < 2:
+            continue
+        cut = (shells[len(shells) // 2 - 1] + shells[len(shells) // 2]) / 2
+        for cls, order in ((FCBasisSetO2, 2), (FCBasisSetO3, 3)):
+            obj = cls(at, cutoff=cut)
+            obj.estimate_basis_size()
+            obj.run()
+            nb = obj.basis_set.shape[1]
+            ctx.case({"cell": sc["name"], "order": order, "cutoff": round(cut, 4), "sequence": "estimate_basis_size, run", "n_basis": int(nb)}, nontrivial=nb > 0)
+            ctx.count("estimate-then-run")
+            if nb == 0:
+                continue
+            T = full_basis_tensors(obj, order, N)
+            worst = max(sum_rule_residual(v, order)[0] for v in list(T[:20]) + [np.tensordot(rng.normal(size=nb), T, axes=(0, 0))])
+            if worst > 1e-8:
+                ctx.fail("oracle", f"C03/oracle/basis/estimate-then-run/order{order}", f"{sc['name']} cutoff {cut:.4f}: FCBasisSetO{order}.estimate_basis_size() followed by run(): an expanded basis vector violates the translational sum rule ({worst:.2e})",
+                         replay={"cell": sc["name"], "lattice": sc["lattice"].tolist(), "positions": sc["positions"].tolist(), "numbers": [int(x) for x in sc["numbers"]], "order": order, "cutoff": cut}, has_input=True)
+
+
 def check(ctx):
     rng = np.random.default_rng(ctx.seed)
     rotational_option(ctx, np.random.default_rng(ctx.seed + 61))
+    estimate_then_run(ctx, np.random.default_rng(ctx.seed + 62))
     if not getattr(ctx, "_weak_done", False):
         ctx._weak_done = True
         weak_constraints_large_cell(ctx)
